@@ -270,61 +270,55 @@ class _OsProxy(object):
 
 
 def body_manifest(max_segs):
+    """Real shutil/os in a sandbox: <root>/pkg holds the package (conf/flowir_package.yaml, src/data, src/bin), <root>/inst
+    is the new instance directory; anything created, modified or removed outside <root>/inst counts."""
     def body(ctx):
-        fs = FSModel()
-        target = '/inst/exp.instance'
-        key = sym_path(ctx, 'key', max_segs)
-        method = ctx.choice('method', ['copy', 'link', None, 'junk'])
-        source = 'src/data' + ((':' + method) if method else '')
-        manifest = {key: source}
-        if ctx.flag('second_benign_entry'):
-            manifest['bin'] = 'bin:copy'
-        # the manifest reaches the deployment either through Manifest(validate=True) (package loaded from a location)
-        # or directly (ExperimentPackage(conf, manifest) / manifest_update()), where deployment is the only guard
-        validated = ctx.flag('manifest_validated_before_deployment')
+        root = tempfile.mkdtemp(prefix='verif-c18m-', dir='/dev/shm' if os.path.isdir('/dev/shm') else None)
         try:
-            m = Manifest(dict(manifest), validate=validated)
-            mdata = m.manifestData
-            invalid = None
-        except errors.FlowIRManifestException as e:
-            invalid = e
-        detail = {'manifest': manifest}
-        if invalid is not None:
-            ctx.witness('manifest_rejected')
-            return 'invalid-manifest'
-        pkg = object.__new__(storage.ExperimentPackage)
-
-        def copytree(s, d, *a, **k):
-            if posixpath.normpath(d) == target or target.startswith(posixpath.normpath(d) + '/'):
-                raise FileExistsError(d)
-            fs.write(d, 'copytree')
-
-        def symlink(s, d):
-            if posixpath.normpath(d) == target or target.startswith(posixpath.normpath(d) + '/'):
-                raise FileExistsError(d)
-            fs.write(d, 'symlink')
-        sh = types.SimpleNamespace(copytree=copytree, copyfile=lambda s, d: fs.write(d, 'copyfile'))
-        osproxy = _OsProxy(symlink=symlink, makedirs=lambda d, *a, **k: fs.write(d, 'makedirs'), exists=lambda p: True)
-        saved = (storage.shutil, storage.os)
-        storage.shutil, storage.os = sh, osproxy
-        cls = type(pkg)
-        attrs = {'location': '/pkg/conf/flowir_package.yaml', 'manifestData': dict(mdata),
-                 'configuration': types.SimpleNamespace(isExperimentPackageDirectory=False)}
-        Sub = type('HPkg', (cls,), {k: property(lambda self, v=v: v) for k, v in attrs.items()})
-        pkg = object.__new__(Sub)
-        try:
+            for d in ('pkg/conf', 'pkg/src/data/deep', 'pkg/src/bin', 'abs'):
+                os.makedirs(os.path.join(root, d))
+            for f in ('pkg/conf/flowir_package.yaml', 'pkg/src/data/file.txt', 'pkg/src/data/deep/x.txt', 'pkg/src/bin/tool'):
+                with open(os.path.join(root, f), 'w') as fh:
+                    fh.write('content of ' + f)
+            target = os.path.join(root, 'inst')
+            key = sym_path(ctx, 'key', max_segs)
+            if key.startswith('/'):
+                key = os.path.join(root, 'abs') + key
+            method = ctx.choice('method', ['copy', 'link', None, 'junk'])
+            manifest = {key: '../src/data' + ((':' + method) if method else '')}
+            second = ctx.choice('second_entry', ['none', 'bin', 'nested-under-first'])
+            if second == 'bin':
+                manifest['bin'] = '../src/bin:copy'
+            elif second == 'nested-under-first':
+                manifest[key.rstrip('/') + '/sub'] = '../src/bin:copy'
+            validated = ctx.flag('manifest_validated_before_deployment')
+            detail = {'manifest': {k.replace(root, '<root>'): v for k, v in manifest.items()}, 'validated': validated}
+            try:
+                m = Manifest(dict(manifest), validate=validated)
+                mdata = m.manifestData
+            except errors.FlowIRManifestException as e:
+                ctx.witness('manifest_rejected')
+                return 'invalid-manifest'
+            attrs = {'location': os.path.join(root, 'pkg', 'conf', 'flowir_package.yaml'), 'manifestData': dict(mdata),
+                     'configuration': types.SimpleNamespace(isExperimentPackageDirectory=False)}
+            Sub = type('HPkg', (storage.ExperimentPackage,), {k: property(lambda self, v=v: v) for k, v in attrs.items()})
+            pkg = object.__new__(Sub)
+            before = snapshot(root)
             try:
                 pkg.expandPackageToDirectory(target)
                 err = None
-            except (errors.PackageCreateError, ValueError) as e:
+            except (errors.PackageCreateError, ValueError, OSError, shutil.Error) as e:
                 err = e
+            after = snapshot(root)
+            changed = sorted(p for p in after if before.get(p) != after[p]) + sorted(p for p in before if p not in after)
+            outside = [p.replace(root, '<root>') for p in changed if not (p == target or p.startswith(target + os.sep))]
+            ctx.check(not outside, 'deploying a package creates entries only beneath the instance directory',
+                      (outside, detail, repr(err)[:200]))
+            if err is None:
+                ctx.witness('manifest_deployed')
+            return (repr(err)[:40], tuple(p.replace(root, '') for p in changed)[:6])
         finally:
-            storage.shutil, storage.os = saved
-        bad = [w for w in fs.writes if not inside(w[0], target)]
-        ctx.check(not bad, 'deploying a package creates entries only beneath the instance directory', (bad, detail, repr(err)))
-        if err is None:
-            ctx.witness('manifest_deployed')
-        return (repr(err)[:40], fs.writes)
+            shutil.rmtree(root, ignore_errors=True)
     return body
 
 
@@ -351,8 +345,10 @@ def signature(param, assignment, message, detail):
         link = any(m[0] in ('symlink', 'hardlink') for m in ms)
         return 'extract|%s|dotdot=%s|link=%s' % (message, dotdot, link)
     if param['kind'] == 'manifest':
-        key = list(info.get('manifest', {'': ''}))[0]
-        return 'manifest|%s|dotdot=%s' % (message, '..' in key.split('/'))
+        keys = list(info.get('manifest', {'': ''}))
+        nested = len(keys) > 1 and keys[1].startswith(keys[0].rstrip('/') + '/')
+        linked = ':link' in str(list(info.get('manifest', {'': ''}).values())[:1])
+        return 'manifest|%s|dotdot=%s|nested-under-linked-key=%s' % (message, '..' in keys[0].split('/'), nested and linked)
     return '%s|%s' % (param['kind'], message)
 
 
@@ -363,9 +359,9 @@ def main(tier, seed, only=None):
     quick = tier == 'quick'
     rep.bounds = {'archive': '%d member(s), names of <= %d segments from %s with optional leading/trailing slash, type file/dir/symlink/hardlink, '
                              'link targets of <= 2 segments' % (1 if quick else 2, 2 if quick else 3, SEGS),
-                  'manifest': 'one key of <= %d segments (+ optional benign second entry), method copy/link/none/junk' % (3 if quick else 4),
+                  'manifest': 'one key of <= %d segments, method copy/link/none/junk, optional second entry (bin, or a key nested under the first), with and without prior validation; real shutil/os in a sandbox' % (3 if quick else 4),
                   'copy/link': 'file path of <= 3 segments, file or directory source'}
-    rep.outside = ['copy/link and manifest deployment use a model of shutil/os (the archive extraction uses the real tarfile and OS in a sandbox)', 'character-level tricks inside one segment',
+    rep.outside = ['copy/link staging uses a model of shutil/os (archive extraction and manifest deployment use the real tarfile/shutil/OS in a sandbox)', 'character-level tricks inside one segment',
                    'Job.stageIn loop (calls StageReference per reference)', 'copying source trees that contain symlinks']
     rep.assumptions = ['extraction: real tar archives and the real tarfile/OS in a scratch sandbox; absolute member names and link targets are spelled below <sandbox>/abs; every created, modified or removed entry outside the working directory counts',
                        'shutil.copytree/os.symlink fail with FileExistsError when the destination is the target directory or one of its ancestors',
